@@ -38,6 +38,11 @@ type c33Sec struct {
 
 type c33Case struct {
 	Secs []c33Sec `json:"secs"`
+	// Held: all round-trip sections are first encoded on ONE encoder, the returned
+	// slices are kept, and only then written and decoded (as two messages of one
+	// connection whose encodings overlap in time). Otherwise every section is encoded
+	// on a fresh encoder and decoded at once.
+	Held bool `json:"held,omitempty"`
 }
 
 // ---------------------------------------------------------------------------
@@ -394,7 +399,7 @@ func c33Gen(t *rapid.T) c33Case {
 		}
 		return s
 	})
-	return c33Case{Secs: rapid.SliceOfN(sec, 1, 6).Draw(t, "secs")}
+	return c33Case{Secs: rapid.SliceOfN(sec, 1, 6).Draw(t, "secs"), Held: rapid.Bool().Draw(t, "held")}
 }
 
 // ---------------------------------------------------------------------------
@@ -528,14 +533,24 @@ func c33Decode(c1, c2 *quic.Conn, wire []byte, chunks []int, lim int) (lines []c
 	return lines, derr, herr
 }
 
+// c33Pre is a field section encoded ahead of time on a shared encoder: the slice the
+// encoder returned, and a private copy taken right after that encode call.
+type c33Pre struct {
+	enc, snap []byte
+}
+
 func c33Encode(fs []c33Field) (enc []byte, err error) {
+	var qe qpackEncoder
+	qe.init()
+	return c33EncodeOn(&qe, fs)
+}
+
+func c33EncodeOn(qe *qpackEncoder, fs []c33Field) (enc []byte, err error) {
 	defer func() {
 		if p := recover(); p != nil {
 			err = fmt.Errorf("qpackEncoder.encode panicked: %v", p)
 		}
 	}()
-	var qe qpackEncoder
-	qe.init()
 	enc = qe.encode(func(f func(itype indexType, name, value string)) {
 		for _, fl := range fs {
 			it := indexType(mayIndex)
@@ -567,11 +582,22 @@ func c33CheckOutcome(what string, e c33Expect, lines []c33Line, rejected bool) e
 	return nil
 }
 
-func c33RunSec(c1, c2 *quic.Conn, i int, s c33Sec, r *vp.Rec) error {
+func c33RunSec(c1, c2 *quic.Conn, i int, s c33Sec, pre *c33Pre, r *vp.Rec) error {
 	if !s.IsRaw {
-		enc, err := c33Encode(s.Fields)
-		if err != nil {
-			return fmt.Errorf("section %d: %v", i, err)
+		var enc []byte
+		if pre != nil {
+			// the encoding handed out earlier must still be what it was
+			if !bytes.Equal(pre.enc, pre.snap) {
+				return fmt.Errorf("section %d: the field section returned by encode was %x, but after later encode calls on the same encoder the returned slice reads %x", i, pre.snap, pre.enc)
+			}
+			enc = pre.enc
+			r.Class("rt:held-across-later-encodes")
+		} else {
+			var err error
+			enc, err = c33Encode(s.Fields)
+			if err != nil {
+				return fmt.Errorf("section %d: %v", i, err)
+			}
 		}
 		lines, derr, herr := c33Decode(c1, c2, enc, s.Chunks, len(enc))
 		if herr != nil {
@@ -736,8 +762,23 @@ func c33Prop(c c33Case, r *vp.Rec) error {
 			return err
 		}
 		defer closeFn()
+		pres := make([]*c33Pre, len(c.Secs))
+		if c.Held {
+			var qe qpackEncoder
+			qe.init()
+			for i, s := range c.Secs {
+				if s.IsRaw {
+					continue
+				}
+				enc, err := c33EncodeOn(&qe, s.Fields)
+				if err != nil {
+					return fmt.Errorf("section %d: %v", i, err)
+				}
+				pres[i] = &c33Pre{enc: enc, snap: bytes.Clone(enc)}
+			}
+		}
 		for i, s := range c.Secs {
-			if err := c33RunSec(c1, c2, i, s, r); err != nil {
+			if err := c33RunSec(c1, c2, i, s, pres[i], r); err != nil {
 				return err
 			}
 		}
@@ -793,9 +834,23 @@ func c33FieldsFromBytes(data []byte) []c33Field {
 }
 
 func c33PureProp(fs []c33Field) error {
-	enc, err := c33Encode(fs)
+	var qe qpackEncoder
+	qe.init()
+	enc, err := c33EncodeOn(&qe, fs)
 	if err != nil {
 		return err
+	}
+	// a later encode on the same encoder must not change what was returned before
+	snap := bytes.Clone(enc)
+	rev := make([]c33Field, len(fs))
+	for i, f := range fs {
+		rev[len(fs)-1-i] = f
+	}
+	if _, err := c33EncodeOn(&qe, append(rev, c33Field{N: []byte("x-later"), V: []byte("1")})); err != nil {
+		return err
+	}
+	if !bytes.Equal(enc, snap) {
+		return fmt.Errorf("encode returned %x, but after another encode on the same encoder the returned slice reads %x", snap, enc)
 	}
 	ref := c33RefDecode(enc, len(enc))
 	if ref.Verdict == c33Either {
